@@ -105,6 +105,11 @@ pub fn unify(state: &mut TypeCheckerState, watchdog: &DynWatchdog) -> Result<()>
                 crate::data::vector_map::ToUniqueIndex::index(&ty_var),
                 &mut inferred_expressions,
             );
+            #[cfg(smlxl_storage_layout_extractor_verif)]
+            crate::verif::note_fold(
+                crate::data::vector_map::ToUniqueIndex::index(&ty_var),
+                &inferred_expressions,
+            );
             let mut current = inferred_expressions
                 .pop_front()
                 .expect("We know there is at least one item in the expressions queue");
